@@ -254,11 +254,17 @@ func c20Gen(r *rng.Rand, i int, tier string) interface{} {
 				for _, c := range ins.Cols {
 					ins.List = append(ins.List, c.Name)
 				}
-			case q < 18 && len(ins.Cols) >= 2 && ins.Cols[0].Type == ins.Cols[1].Type: // reordered, same types
-				ins.List = []string{"Epoch", ins.Cols[1].Name, ins.Cols[0].Name}
-				for _, c := range ins.Cols[2:] {
+			case q < 22 && len(ins.Cols) >= 1: // another arrangement of Epoch and the target's columns
+				ins.List = []string{"Epoch"}
+				for _, c := range ins.Cols {
 					ins.List = append(ins.List, c.Name)
 				}
+				for j := range ins.List {
+					k := j + r.Intn(len(ins.List)-j)
+					ins.List[j], ins.List[k] = ins.List[k], ins.List[j]
+				}
+			case q < 25 && len(ins.Cols) >= 2: // a strict subset: always rejected by WriteCSM
+				ins.List = []string{"Epoch", ins.Cols[0].Name}
 			}
 			in.Ins = ins
 			// a column that EqualFolds "Epoch" in the written series hits C29's finding (SerializeColumnsToRows
@@ -486,7 +492,7 @@ func c20FoldEq(a, b string) bool { return strings.EqualFold(a, b) }
 
 type c20Classes struct {
 	selWf, aliasCollision, limitZero, foldDistinct bool
-	insWf, insReordered                            bool
+	insWf                                          bool
 }
 
 func c20Classify(in *c20In) c20Classes {
@@ -585,13 +591,20 @@ func c20Classify(in *c20In) c20Classes {
 				}
 			}
 		}
-		if ins.List != nil {
-			want := []string{"Epoch"}
+		if ins.List != nil { // any arrangement of Epoch + the target's columns
+			want := map[string]bool{"Epoch": true}
 			for _, c := range ins.Cols {
-				want = append(want, c.Name)
+				want[c.Name] = true
 			}
-			if strings.Join(want, ",") != strings.Join(ins.List, ",") {
-				k.insReordered = true
+			got := map[string]bool{}
+			for _, n := range ins.List {
+				if !want[n] || got[n] {
+					k.insWf = false
+				}
+				got[n] = true
+			}
+			if len(got) != len(want) {
+				k.insWf = false
 			}
 		}
 	}
@@ -604,8 +617,6 @@ func (k c20Classes) class() string {
 		return "limit-zero"
 	case k.aliasCollision:
 		return "alias-collision"
-	case k.insReordered:
-		return "insert-column-list-reordered"
 	}
 	return ""
 }
@@ -794,7 +805,7 @@ func c20Run(raw json.RawMessage) (res Result, err error) {
 	k19 := c19Classify(c19in)
 	k := c20Classify(&in)
 	judged := k19.inDomain() && k.selWf && k.foldDistinct && expOK && in.Limit <= 1000000 && (in.Ins == nil || k.insWf)
-	res.InDomain = judged && !k.aliasCollision && !k.limitZero && !k.insReordered
+	res.InDomain = judged && !k.aliasCollision && !k.limitZero
 	res.Holds = true
 	if judged {
 		switch {
